@@ -2,7 +2,7 @@
    Model: the options-dependent half of BWStore.Lookup (checker.CheckGlobalTimeBounds, isImmutable/isTemporal/latest
    filters, LatestAnchor, the CheckLimitAndUpdate counters); Spec: BWStore.LookupSpec.
    [lookup] = working tree (after fixes F6, F19); [lookup_v] with v_inst = false = the filter functions before F19. *)
-From Coq Require Import List NArith ZArith Bool.
+From Coq Require Import List NArith ZArith Bool Permutation.
 Import ListNotations.
 From BWStore Require Import AMap Store StoreSpec StoreProofs Lookup LookupSpec PageProofs LookupProofs LookupMain.
 
@@ -129,9 +129,9 @@ Proof. exact paged_error_iff. Qed.
 Print Assumptions C09_paged_error_iff.
 
 (* ---- before fix F19 (commit e13c36f): the filter functions compared Predicate.String() --------------------------- *)
-Definition z_stored := {| tsub := 0; tpred := {| pid := 0; panchor := Some {| ns := 5; off := 10800 |} |}; tobj := ONode 2; trank := 0 |}.
+Definition z_stored := {| tsub := 0; tpred := {| pid := 0; panchor := Some {| ns := 5; off := 10800; uns := 5 |} |}; tobj := ONode 2; trank := 0 |}.
 Definition z_ops := [ONew 0; OAdd 0 [z_stored]].
-Definition z_query := QTrP {| pid := 0; panchor := Some {| ns := 5; off := 0 |} |}.   (* same instant, written in UTC *)
+Definition z_query := QTrP {| pid := 0; panchor := Some {| ns := 5; off := 0; uns := 5 |} |}.   (* same instant, written in UTC *)
 Definition z_lo := {| lo_max := 0; lo_lower := None; lo_upper := None; lo_latest := false;
                       lo_filter := Some (FIsTemporal, FPredicate); lo_offset := 0 |}.
 
@@ -147,9 +147,9 @@ Qed.
 Print Assumptions C09_unfixed_zone_refuted.
 
 (* ---- non-vacuity: window boundary, latest with a tie, LatestAnchor, pages ------------------------------------------ *)
-Definition e1 := {| tsub := 0; tpred := {| pid := 0; panchor := Some {| ns := 5; off := 0 |} |}; tobj := ONode 1; trank := 0 |}.
-Definition e2 := {| tsub := 0; tpred := {| pid := 0; panchor := Some {| ns := 9; off := 0 |} |}; tobj := ONode 1; trank := 1 |}.
-Definition e3 := {| tsub := 0; tpred := {| pid := 0; panchor := Some {| ns := 9; off := 3600 |} |}; tobj := ONode 2; trank := 2 |}.
+Definition e1 := {| tsub := 0; tpred := {| pid := 0; panchor := Some {| ns := 5; off := 0; uns := 5 |} |}; tobj := ONode 1; trank := 0 |}.
+Definition e2 := {| tsub := 0; tpred := {| pid := 0; panchor := Some {| ns := 9; off := 0; uns := 9 |} |}; tobj := ONode 1; trank := 1 |}.
+Definition e3 := {| tsub := 0; tpred := {| pid := 0; panchor := Some {| ns := 9; off := 3600; uns := 9 |} |}; tobj := ONode 2; trank := 2 |}.
 Definition e4 := {| tsub := 0; tpred := {| pid := 1; panchor := None |}; tobj := ONode 1; trank := 3 |}.
 Definition e_ops := [ONew 0; OAdd 0 [e3; e1; e4; e2]].
 Definition mk (m : Z) (l u : option Z) (la : bool) (f : option (fop * ffield)) (o : Z) := Build_lopts m l u la f o.
@@ -163,3 +163,21 @@ Example C09_nonvacuous : forall g, graph_of (run e_ops) 0 = Some g ->
   lookup QAll (mk 3 None None false None 1) g = LOk [RsTriple e4] /\
   lookup QAll (mk (-1) None None false None (-1)) g = LOk [RsTriple e2; RsTriple e3; RsTriple e4].
 Proof. intros g Hg. vm_compute in Hg. inversion Hg. subst g. vm_compute. repeat split. Qed.
+
+(* the latest filter ranges over a Go map in the code and over a list in the model: the selected set is the same
+   for every order of the candidates *)
+Theorem C09_latest_order_independent : forall qp f X X' t,
+  Permutation X X' -> NoDup X -> (forall x, In x X -> query_pred_ok current qp x = true) ->
+  (In t (latest_filter current qp f X) <-> In t (latest_filter current qp f X')).
+Proof. exact latest_order_independent. Qed.
+Print Assumptions C09_latest_order_independent.
+
+(* the order of the pipeline matters: taking the latest BEFORE applying the window is a different function, so
+   C09_pipeline (window first) is a real constraint *)
+Theorem C09_order_matters : exists lo X,
+  window lo (filter (is_latest FPredicate X) X) <>
+  filter (is_latest FPredicate (window lo X)) (window lo X).
+Proof.
+  exists (mk 0 None (Some 8%Z) false None 0), [e1; e2]. vm_compute. discriminate.
+Qed.
+Print Assumptions C09_order_matters.
